@@ -46,6 +46,7 @@ package interp // import "golang.org/x/tools/go/ssa/interp"
 
 import (
 	"fmt"
+	"strings"
 	"go/token"
 	"go/types"
 	"log"
@@ -575,7 +576,7 @@ func callSSA(i *interpreter, caller *frame, callpos token.Pos, fn *ssa.Function,
 			return ext(fr, args)
 		}
 		if fn.Blocks == nil {
-			panic("no code for function: " + name)
+			unsup("no code for function: %s", name)
 		}
 	}
 
@@ -723,7 +724,7 @@ func doRecover(caller *frame) value {
 			return p.v
 		case runtime.Error:
 			// The interpreter encountered a runtime error.
-			return iface{caller.i.runtimeErrorString, p.Error()}
+			return iface{caller.i.runtimeErrorString, strings.TrimPrefix(p.Error(), "runtime error: ")}
 		case string:
 			// The interpreter explicitly called panic().
 			return iface{caller.i.runtimeErrorString, p}
